@@ -21,6 +21,7 @@ type Case struct {
 	Keys     []string  `json:"keys"`
 	Upper    bool      `json:"upper"`               // first key column is grouped as upper(k1)
 	NearPair bool      `json:"near_pair,omitempty"` // two float keys differing only beyond float32 precision were planted
+	Aliased  []bool    `json:"aliased,omitempty"` // per key column: selected as "k AS o_k" (the tuple is reported under the selected name)
 	KeyFn    string    `json:"key_fn,omitempty"`    // other scalar function around the first key column: lower, length (strings), abs (ints), floor (floats); several raw values share one function value
 	Rows     []gen.Row `json:"rows"`                // id + key columns
 }
@@ -66,6 +67,12 @@ func genCase(t *rapid.T) Case {
 	}
 	if nk > 0 && kinds[0] == 0 && rapid.IntRange(0, 4).Draw(t, "upper") == 0 {
 		c.Upper = true
+	}
+	if nk > 0 && rapid.IntRange(0, 2).Draw(t, "aliases") == 0 {
+		c.Aliased = make([]bool, nk)
+		for i := range c.Aliased {
+			c.Aliased[i] = rapid.Bool().Draw(t, "aliased")
+		}
 	}
 	if nk > 0 && !c.Upper && rapid.IntRange(0, 5).Draw(t, "keyfn") == 0 {
 		c.KeyFn = [][]string{{"lower", "length"}, {"abs"}, {"floor"}}[kinds[0]][rapid.IntRange(0, 1).Draw(t, "whichfn")%len([][]string{{"lower", "length"}, {"abs"}, {"floor"}}[kinds[0]])]
@@ -144,13 +151,23 @@ func groupExprs(c Case) []string {
 	return g
 }
 
+// outName is the name under which key column i is selected.
+func (c Case) outName(i int) string {
+	if i < len(c.Aliased) && c.Aliased[i] {
+		return "o_" + c.Keys[i]
+	}
+	return c.Keys[i]
+}
+
 func sqlOf(c Case) string {
 	var sel []string
 	for i, k := range c.Keys {
 		if i == 0 && c.Upper {
-			sel = append(sel, "upper("+k+") AS "+k)
+			sel = append(sel, "upper("+k+") AS "+c.outName(i))
 		} else if i == 0 && c.KeyFn != "" {
-			sel = append(sel, c.KeyFn+"("+k+") AS "+k)
+			sel = append(sel, c.KeyFn+"("+k+") AS "+c.outName(i))
+		} else if c.outName(i) != k {
+			sel = append(sel, k+" AS "+c.outName(i))
 		} else {
 			sel = append(sel, k)
 		}
@@ -321,9 +338,14 @@ func runCase(c Case) (res pbt.Result) {
 			if cnt, _ := gen.ToFloat(r["c"]); int(cnt) != len(ids) {
 				res.Add(pbt.D("wrong-count", "count(*)=%v but %d ids", r["c"], len(ids)))
 			}
-			for i, kc := range c.Keys {
+			for i := range c.Keys {
+				kc := c.outName(i)
 				wv := tupleVals[k][i]
-				g := r[kc]
+				g, present := r[kc]
+				if !present {
+					res.Add(pbt.D("wrong-key-col", "tuple %q: the result row has no column %s (selected name of %s); row %v (%s window)", k, kc, c.Keys[i], r, c.Window))
+					continue
+				}
 				ok := false
 				if wv.IsNull() {
 					ok = g == nil
@@ -410,7 +432,7 @@ func runCase(c Case) (res pbt.Result) {
 
 var spec = pbt.Spec[Case]{
 	ID:          "C04",
-	Rule:        "generated: 0-3 grouping columns (one scalar type each: strings from a pool built to collide under naive joins, small ints, floats incl. planted pairs that differ only beyond float32 precision or in the last bits; NULL and missing; optionally upper(k1), lower(k1), length(k1), abs(k1) or floor(k1) as function key, the last three mapping several raw values to one key), rows drawn from a pool of 1-6 key tuples and interleaved, run through an event-time tumbling window (one interval + flush), a counting window, an event-time session window (gap-free + flush) and a global window. oracle: typed reference partition (NULL != '', missing == NULL): every result row aggregates ids of one tuple only, at most one row per tuple per batch, reports the tuple under the selected names, and the union per tuple equals that tuple's rows that had to fire. non-trivial = >=2 columns with a separator-bearing value, or a NULL group, or two tuples whose '|', ',' or \\x1f joins coincide; distinct by case hash",
+	Rule:        "generated: 0-3 grouping columns (one scalar type each: strings from a pool built to collide under naive joins, small ints, floats incl. planted pairs that differ only beyond float32 precision or in the last bits; NULL and missing; optionally upper(k1), lower(k1), length(k1), abs(k1) or floor(k1) as function key, the last three mapping several raw values to one key), rows drawn from a pool of 1-6 key tuples and interleaved, run through an event-time tumbling window (one interval + flush), a counting window, an event-time session window (gap-free + flush) and a global window. oracle: typed reference partition (NULL != '', missing == NULL): every result row aggregates ids of one tuple only, at most one row per tuple per batch, reports the tuple under the selected names (plain or `k AS o_k` per column), and the union per tuple equals that tuple's rows that had to fire. non-trivial = >=2 columns with a separator-bearing value, or a NULL group, or two tuples whose '|', ',' or \\x1f joins coincide; distinct by case hash",
 	Assumptions: []string{"input never dropped (block strategy)", "one scalar type per grouping column (1 vs '1' is outside the property)", "f(NULL) is not generated for function keys"},
 	Gen:         genCase,
 	Run:         runCase,
